@@ -48,9 +48,17 @@ class ClassInfo:
         self.qualname = f'{module.name}:{node.name}'
         self.base_exprs = node.bases
         self.methods = {}
+        self.setters = {}
         self.assigns = {}
         for item in node.body:
             if isinstance(item, ast.FunctionDef):
+                decos = [ast.unparse(d) for d in item.decorator_list]
+                if f'{item.name}.setter' in decos:
+                    # @<name>.setter: kept beside the getter (which stays the method named <name>)
+                    fi = FuncInfo(module, self, item)
+                    fi.qualname = f'{module.name}:{self.name}.{item.name}.setter'
+                    self.setters[item.name] = fi
+                    continue
                 self.methods[item.name] = FuncInfo(module, self, item)
             elif isinstance(item, ast.Assign):
                 for t in item.targets:
